@@ -151,7 +151,7 @@ REGISTRY = {
     },
     "C14": {
         "rules": [
-            bp.rule_bp_exponent, bp.rule_accumulator_units, bp.rule_bp_normalizers, bp.rule_factor_orientation, bp.rule_damping_order, bp.rule_dual_refresh, bp.rule_bp_cache_invalidate, bp.rule_pair_normaliser_phase, bp.rule_excluded_tensors_accounted, bp.rule_gloop_singletons,
+            bp.rule_bp_exponent, bp.rule_accumulator_units, bp.rule_bp_normalizers, bp.rule_factor_orientation, bp.rule_damping_order, bp.rule_dual_refresh, bp.rule_bp_cache_invalidate, bp.rule_pair_normaliser_phase, bp.rule_excluded_tensors_accounted, bp.rule_gloop_singletons, bp.rule_query_selects_output,
             P(registries.rule_mode_total, specs=[
                 ("quimb.tensor.belief_propagation.bp_common", "BeliefPropagationCommon.normalize.setter", "normalize"),
                 ("quimb.tensor.belief_propagation.bp_common", "BeliefPropagationCommon.distance.setter", "distance"),
@@ -297,7 +297,7 @@ REGISTRY = {
     },
     "C05": {
         "rules": [decomp.rule_absorb_tables, decomp.rule_cutoff_tables, decomp.rule_guard_agree,
-                  decomp.rule_clamp, decomp.rule_use_or_reject, decomp.rule_split_flags, decomp.rule_cache_immut, decomp.rule_cache_typed, decomp.rule_alias_normalised, decomp.rule_renorm_power_siblings, decomp.rule_full_spectrum_before_trim, decomp.rule_delegation_complete, decomp.rule_nonneg_before_sqrt, decomp.rule_partial_selection, decomp.rule_error_after_clamp,
+                  decomp.rule_clamp, decomp.rule_use_or_reject, decomp.rule_split_flags, decomp.rule_cache_immut, decomp.rule_cache_typed, decomp.rule_alias_normalised, decomp.rule_renorm_power_siblings, decomp.rule_full_spectrum_before_trim, decomp.rule_delegation_complete, decomp.rule_nonneg_before_sqrt, decomp.rule_partial_selection, decomp.rule_error_after_clamp, decomp.rule_fixed_form_claim,
                   P(iso.rule_iso_claim, only_modules=("quimb.tensor.tensor_core", "quimb.tensor.decomp"), rule="iso-claim[split]")],
         "explanation": (
             "static (constant evaluation of the module-level tables + decision-table extraction + sibling "
